@@ -172,4 +172,37 @@ Proof.
   - apply Hw.
 Qed.
 
+(* B-spline models: subdivision of the control grid installs the new grid and the subdivided coefficients *)
+Theorem spline_grid_set_reexpresses s o g s1 ob r ip :
+  get_obj s o = Some ob -> is_spline (o_kind P G C ob) = true -> slots_wf ob ->
+  get_params s ob = Some (VTen r ip) ->
+  ffd_sub (o_grid P G C ob) g = Some true ->
+  grid_set s o g = Ok tt s1 ->
+  holds s1 o (regrid (o_kind P G C ob) (tval s r) (o_grid P G C ob) g) g.
+Proof.
+  destruct (cfg_all_fields _ Hcf) as (_ & _ & _ & _ & _ & _ & _ & _ & _ & _ & _ & _ & _ & _ & _ & _ & Hsg).
+  intros Hg Hsp Hw Hp Hsub H. unfold TransformState.grid_set, with_obj in H. fold (get_obj s o) in H.
+  assert (Hd : is_dense (o_kind P G C ob) = false) by (destruct (o_kind P G C ob); cbn in *; congruence).
+  rewrite Hg, Hd, Hsp, Hp, Hsub in H.
+  destruct (negb (spline_ok g)); try discriminate.
+  assert (Hks : o_kind P G C ob <> KSeq) by (destruct (o_kind P G C ob); cbn in Hsp; congruence).
+  unfold spline_install in H. rewrite Hsg in H.
+  destruct (clear_keeps_params s o ob Hg Hks) as (ob1 & Hg1 & Hp1 & Hgr1 & Ht1 & Hk1).
+  fold (get_obj (clear_buffers s o) o) in H. rewrite Hg1 in H.
+  assert (Hg2 : get_obj (set_obj (clear_buffers s o) o (set_grid P G C ob1 g)) o = Some (set_grid P G C ob1 g))
+    by apply (get_set_same' _ _ _ _ Hg1).
+  assert (Hw2 : slots_wf (set_grid P G C ob1 g)).
+  { unfold TransformState.clear_buffers in Hg1. fold (get_obj s o) in Hg1. rewrite Hg in Hg1.
+    assert (E : TransformState.clear1 P G C cf s o = set_obj s o (clear_obj P G C cf ob)).
+    { unfold clear1. fold (get_obj s o). rewrite Hg. reflexivity. }
+    assert (Hx : ob1 = clear_obj P G C cf ob).
+    { destruct (o_kind P G C ob) eqn:Ek; try congruence; rewrite E in Hg1;
+      rewrite (get_set_same' _ _ _ _ Hg) in Hg1; congruence. }
+    subst ob1. unfold slots_wf, clear_obj in *. destruct (is_nonrigid (o_kind P G C ob)); destruct ob; cbn in *; auto. }
+  assert (Hk2 : o_kind P G C (set_grid P G C ob1 g) <> KSeq) by (destruct ob1; cbn in *; congruence).
+  pose proof (data_set_holds _ _ _ _ _ Hg2 Hk2 Hw2 H) as Hh.
+  replace (o_grid P G C (set_grid P G C ob1 g)) with g in Hh by (destruct ob1; reflexivity).
+  exact Hh.
+Qed.
+
 End Regrid.
